@@ -33,14 +33,17 @@ def case_env():
     return e
 
 
-def run_case_subprocess(pid, case, timeout):
-    """Returns (result dict or None, info dict)."""
+def run_case_subprocess(pid, case, timeout, safe=False):
+    """Returns (result dict or None, info dict). safe=True: retry mode with XLA's CPU fusion emitters off (env.py)."""
     fd, out = tempfile.mkstemp(prefix=f"rexmon-{pid}-", suffix=".json")
     os.close(fd)
     t0 = time.time()
     info = dict(timeout=False, rc=None, wall=0.0, tail="")
     try:
-        p = subprocess.run([PY, "-m", "rexmon.case", pid, json.dumps(case), out], env=case_env(), cwd=VERIF_DIR,
+        e = case_env()
+        if safe:
+            e["REXMON_XLA_SAFE"] = "1"
+        p = subprocess.run([PY, "-m", "rexmon.case", pid, json.dumps(case), out], env=e, cwd=VERIF_DIR,
                            stdout=subprocess.PIPE, stderr=subprocess.STDOUT, timeout=timeout)
         info["rc"] = p.returncode
         info["tail"] = p.stdout.decode(errors="replace")[-3000:]
@@ -116,7 +119,7 @@ def run_check(pid, tier, seed, replay=None, workers=None, verbose=True):
                 print(f"[{pid}] case {c.get('name', '?')} -> no result ({'timeout' if info['timeout'] else info['rc']}) {info['wall']}s", flush=True)
     # retry timed-out / crashed cases once, alone (3x budget): a loaded machine must not turn into a verdict
     for c in retry:
-        res, info = run_case_subprocess(pid, c, 3 * c.get("timeout", 300))
+        res, info = run_case_subprocess(pid, c, 3 * c.get("timeout", 300), safe=True)
         absorb(c, res, info, final=True)
         if verbose and res is None:
             print(f"[{pid}] retry of case {c.get('name', '?')} -> no result; tail:\n{info['tail'][-1500:]}", flush=True)
